@@ -384,6 +384,18 @@ def run_history(client, cfg, ops, horizon=30.0):
             kind = "uncommitted-write-visible-at-endpoint" if (not autocommit and model.queue) else "endpoint-differs-from-model"
             return (("%s|%s|%s" % (ccls, k, kind), {"ops": ops[:steps], "endpoint": sorted(at_endpoint, key=repr), "expected": sorted(model.rows(), key=repr),
                                                    "log": [str(x)[:200] for x in ep.log[-3:]]}), steps)
+    if not autocommit and model.queue:
+        # closing step of every history: whatever is still pending must reach the endpoint, in order, at commit()
+        steps += 1
+        try:
+            store.commit()
+        except Exception as e:  # noqa: BLE001
+            return (("%s|closing-commit|raises|%s" % (ccls, type(e).__name__), {"ops": ops, "exc": repr(e)[:300]}), steps)
+        model.commit()
+        at_endpoint = dataset_rows(ep.ds)
+        if at_endpoint != model.rows():
+            return (("%s|closing-commit|endpoint-differs-from-model" % ccls, {"ops": ops, "endpoint": sorted(at_endpoint, key=repr), "expected": sorted(model.rows(), key=repr),
+                                                                            "log": [str(x)[:200] for x in ep.log[-3:]]}), steps)
     return (None, steps)
 
 
